@@ -30,9 +30,10 @@ def cut_if(module, fname, test_src, branch='body', params=(), result=None, name=
     return _wrap(module, stmts, params, result, name, prelude)
 
 
-def cut_for(module, fname, iter_src_startswith, params=(), result=None, name='_cut', prelude='', include_following=0):
+def cut_for(module, fname, iter_src_startswith, params=(), result=None, name='_cut', prelude='', include_following=0, index=0, from_stmt=None):
     """Find the first `for ... in <iter>` whose iterable source starts with the given text."""
     fn = _find_function(module, fname)
+    matches = []
     for parent in ast.walk(fn):
         for field in ('body', 'orelse', 'finalbody'):
             seq = getattr(parent, field, None)
@@ -40,7 +41,20 @@ def cut_for(module, fname, iter_src_startswith, params=(), result=None, name='_c
                 continue
             for i, node in enumerate(seq):
                 if isinstance(node, ast.For) and ast.unparse(node.iter).startswith(iter_src_startswith):
-                    return _wrap(module, seq[i:i + 1 + include_following], params, result, name, prelude)
+                    matches.append((node.lineno, seq, i))
+    matches.sort(key=lambda m: m[0])      # source order
+    if len(matches) > index:
+        _, seq, i = matches[index]
+        lo = i
+        if from_stmt is not None:
+            # also take the statements between `from_stmt` (e.g. a counter initialisation) and the loop: set-up code that belongs to the loop
+            for j in range(i - 1, -1, -1):
+                if ast.unparse(seq[j]).strip() == from_stmt:
+                    lo = j
+                    break
+            else:
+                raise AnchorMissing('statement `%s` not found before the loop in %s.%s' % (from_stmt, module.__name__, fname))
+        return _wrap(module, seq[lo:i + 1 + include_following], params, result, name, prelude)
     raise AnchorMissing('`for ... in %s...` not found in %s.%s' % (iter_src_startswith, module.__name__, fname))
 
 
